@@ -34,10 +34,10 @@ LEVEL = {  # evidence level per property (must agree with MANIFEST.json)
     'C07': 'proof',
     'C01': 'other', 'C02': 'other', 'C03': 'other', 'C05': 'other', 'C06': 'other', 'C09': 'other', 'C10': 'other',
     'C11': 'other', 'C12': 'other', 'C13': 'other', 'C14': 'other', 'C17': 'other', 'C18': 'other',
-    'C08': 'exploration', 'C16': 'exploration',
+    'C08': 'other', 'C16': 'exploration',
     'C04': 'exploration', 'C15': 'exploration',
 }
-CONTRACT_MODULES = ['streams', 'sync', 'writers', 'cwrite', 'helpers', 'cpack', 'cdirect', 'crepack']
+CONTRACT_MODULES = ['streams', 'sync', 'writers', 'cwrite', 'helpers', 'cpack', 'cdirect', 'crepack', 'clist', 'cread']
 STANDING_ASSUMPTIONS = [
     'pyvc encodes a subset of Python: unbounded mathematical integers, bytes/str as z3 sequences, attribute dictionaries, '
     'left-to-right evaluation, no threads, no signals; anything outside the subset makes the unit undecided (never a pass)',
